@@ -485,7 +485,7 @@ func Menagerie(r *rand.Rand) *model.Schema {
 		ot := &model.TypeDef{Kind: model.Object, Name: nm, Interfaces: []string{"Animal"}}
 		ot.Fields = append(ot.Fields,
 			&model.FieldDef{Name: "name", Type: model.Named("String")},
-			&model.FieldDef{Name: "friend", Type: model.Named(nm)},                // covariant: own type
+			&model.FieldDef{Name: "friend", Type: model.Named(nm)},                   // covariant: own type
 			&model.FieldDef{Name: "pals", Type: model.ListOf(model.Named("Animal"))}, // stays abstract
 		)
 		if r.Intn(2) == 0 {
